@@ -28,7 +28,7 @@ IsSetO(x) == x # <<>>            \* optional value encoded as a sequence of leng
 Val(x)  == x[1]
 Empty   == [x \in {} |-> 0]      \* the empty extra_args
 Sign(x) == IF x > 0 THEN 1 ELSE IF x < 0 THEN -1 ELSE 0
-Range(s) == {s[i] : i \in DOMAIN s}
+RangeOf(s) == {s[i] : i \in DOMAIN s}
 
 ---------------------------------------------------------------------------
 (* MEMORY.  A memory string is tokenised as                                 *)
@@ -42,14 +42,14 @@ Range(s) == {s[i] : i \in DOMAIN s}
 (* Documented form: <number><unit>, number = digits[.digits],               *)
 (* unit one of B KB MB GB TB PB.                                            *)
 Units == <<"B", "KB", "MB", "GB", "TB", "PB">>           \* each 1000 x the previous
-UnitExp(u) == CHOOSE i \in 0..5 : Units[i + 1] = u
+UnitExp(u) == CASE u = "B" -> 0 [] u = "KB" -> 1 [] u = "MB" -> 2 [] u = "GB" -> 3 [] u = "TB" -> 4 [] u = "PB" -> 5
 
 MemWellFormed(m) ==
     /\ m.pre = "" /\ m.post = ""
     /\ m.ipd >= 1
     /\ \/ m.dot = 0 /\ m.fpd = 0
        \/ m.dot = 1 /\ m.fpd >= 1
-    /\ m.unit \in Range(Units)
+    /\ m.unit \in RangeOf(Units)
 (* Not decided by the property text (kept out of every universe): lower-case units ("2gb"),       *)
 (* more than three fractional digits (below the resolution of MemMant).                           *)
 MemInScope(m) == m.fpd <= 3 /\ m.ip <= 2000000
@@ -87,12 +87,12 @@ TimeWellFormed(t) ==
     /\ n = 3 => t.f[1][2] \in {1, 2}                            \* H or HH
     /\ n = 4 => t.f[2][2] = 2 /\ t.f[1][2] = 1                  \* D:HH
 (* Not decided by the property text (kept out of every universe): three or more hour digits       *)
-(* ("100:00:00"), two or more day digits, field values beyond 59 / 23.                            *)
+(* ("100:00:00"), two or more day digits.  Field VALUES are not restricted by the formats (the     *)
+(* universes keep minutes and seconds below 60 and hours of the day form below 24).               *)
 TimeInScope(t) ==
     LET n == Len(t.f) IN
     /\ (n = 3 /\ \A i \in 1..3 : t.f[i][2] >= 1) => t.f[1][2] <= 2
     /\ (n = 4 /\ \A i \in 1..4 : t.f[i][2] >= 1) => t.f[1][2] <= 1
-    /\ \A i \in 1..n : t.f[i][1] <= 99
 
 Seconds(t) ==
     LET n == Len(t.f)
@@ -142,8 +142,8 @@ MaxMemIdx(rs)  == LET D == {i \in DOMAIN rs : IsSetO(rs[i].memory)}
                   IN  {i \in D : \A j \in D : MemCmp(Val(rs[i].memory), Val(rs[j].memory)) >= 0}
 MaxTimeIdx(rs) == LET D == {i \in DOMAIN rs : IsSetO(rs[i].time)}
                   IN  {i \in D : \A j \in D : TimeCmp(Val(rs[i].time), Val(rs[j].time)) >= 0}
-First(S) == CHOOSE i \in S : \A j \in S : i <= j
-Last(S)  == CHOOSE i \in S : \A j \in S : i >= j
+FirstOf(S) == CHOOSE i \in S : \A j \in S : i <= j
+LastOf(S)  == CHOOSE i \in S : \A j \in S : i >= j
 
 (* extra_args: union, the first operand that has a key wins (pinned by tests/test_resources.py) *)
 RECURSIVE ExtraFirstWins(_)
@@ -160,10 +160,10 @@ CombineMax(rs) ==
     [Blank EXCEPT
        !.cpus   = MaxI(IntsOf(rs, "cpus")),
        !.gpus   = MaxI(IntsOf(rs, "gpus")),
-       !.memory = IF MaxMemIdx(rs) = {} THEN <<>> ELSE rs[First(MaxMemIdx(rs))].memory,
-       !.time   = IF MaxTimeIdx(rs) = {} THEN <<>> ELSE rs[First(MaxTimeIdx(rs))].time,
+       !.memory = IF MaxMemIdx(rs) = {} THEN <<>> ELSE rs[FirstOf(MaxMemIdx(rs))].memory,
+       !.time   = IF MaxTimeIdx(rs) = {} THEN <<>> ELSE rs[FirstOf(MaxTimeIdx(rs))].time,
        !.partition = LET D == {i \in DOMAIN rs : rs[i].partition # ""}
-                     IN  IF D = {} THEN "" ELSE rs[Last(D)].partition,
+                     IN  IF D = {} THEN "" ELSE rs[LastOf(D)].partition,
        !.extra  = ExtraFirstWins(rs)]
 
 CombineMaxOK(rs, out) ==
@@ -211,7 +211,7 @@ KeepsAndFills(r, d, out) ==
     \A k \in QFields : out[k] = IF IsSet(r, k) THEN r[k] ELSE d[k]
 
 ---------------------------------------------------------------------------
-(* update(**kwargs): kwargs is a sequence of <<key, value>> in call order.  A field name replaces  *)
+(* update(kwargs...): kwargs is a sequence of <<key, value>> in call order.  A field name replaces  *)
 (* the field, "extra_args" (value: a function) is merged into extra, any other key becomes an      *)
 (* extra_args entry.  The result is a NEW specification; if it is not Valid the call raises.       *)
 RECURSIVE Update(_, _)
@@ -251,6 +251,14 @@ Result(objs, o) ==
       [] o.op = "roundtrip"     -> FromDict(Dict(objs[o.a[1]]))
 Raises(objs, o) == ~Valid(Result(objs, o))
 Apply(objs, o)  == IF Raises(objs, o) THEN objs ELSE Append(objs, Result(objs, o))
+(* Acceptance of an OBSERVED outcome (trace validation): a raise is explained iff the reference     *)
+(* result is not Valid; a returned specification `new` is explained iff it is an allowed result    *)
+(* (ties in combine_max, the don't-cares of with_defaults).                                        *)
+ResultOK(objs, o, new) ==
+    CASE o.op = "update"        -> ~Raises(objs, o) /\ new = Result(objs, o)
+      [] o.op = "combine_max"   -> Valid(new) /\ CombineMaxOK([i \in DOMAIN o.a |-> objs[o.a[i]]], new)
+      [] o.op = "with_defaults" -> ~Raises(objs, o) /\ WithDefaultsOK(objs[o.a[1]], objs[o.a[2]], new)
+      [] o.op = "roundtrip"     -> new = objs[o.a[1]]
 (* the step property: nothing that existed has changed, at most one id was added *)
 ExistingUnchanged(objs, objs2) ==
     /\ Len(objs2) \in {Len(objs), Len(objs) + 1}
